@@ -16,6 +16,10 @@ type SlotContent struct {
 	Props map[string]any
 	// TemplateNode holds the original template node for processing scoped slots.
 	TemplateNode *html.Node
+
+	// depth is the number of variable scopes that were in effect where the include tag
+	// supplying this content was written (0: unknown, e.g. content a page hands to its layout).
+	depth int
 }
 
 // SlotScope holds all slot contents indexed by name for a component instance.
@@ -81,6 +85,11 @@ func (v *Vue) evalSlot(ctx VueContext, node *html.Node, slotScope *SlotScope) ([
 			// against the includer's slot scope.
 			result := []*html.Node{}
 			ctx.SlotScope = slotScope.parent
+
+			// ... and it sees the includer's variables (plus the slot props), not the
+			// component's own props, front-matter or loop variables of the same name.
+			hidden := ctx.stack.hideAbove(slotContent.depth)
+			defer ctx.stack.restore(hidden)
 
 			// If the slot content is a template with v-slot, evaluate it with the props
 			if slotContent.TemplateNode != nil {
